@@ -545,7 +545,7 @@ pub open spec fn lt_key_text(user: Seq<char>, realm: Seq<char>, password: Seq<ch
 impl HMACKey {
     pub open spec fn bytes(&self) -> Seq<u8> { self.0.key@ }
 //@item stun_rs :: mod types > impl HMACKey > fn new_short_term
-//@tags C04 C19
+//@tags C04 C19 C07 C13
 //@sig
     pub fn new_short_term(password: &str) -> (r: Result<Self, StunError>)
 //@sub "opaque_string_enforce(password.as_ref())?" => "strings::opaque_string_enforce(password)?"
@@ -555,7 +555,7 @@ impl HMACKey {
         r is Ok ==> r->Ok_0.bytes() == vstd::utf8::encode_utf8(opaque_enforced(password@)) && r->Ok_0.0.mechanism is ShortTerm,
 //@end
 //@item stun_rs :: mod types > impl HMACKey > fn new_long_term
-//@tags C04 C19
+//@tags C04 C19 C08 C13
 //@rules R1S
 //@sig
     pub fn new_long_term(username: &str, realm: &str, password: &str, algorithm: &Algorithm) -> (r: Result<Self, StunError>)
